@@ -338,6 +338,8 @@ Fixpoint lit_atoms (cs : list Z) (e : expr) : bool :=
   match e with
   | ELit (VBool _) | ELit VNull => true
   | ECmp _ (ECol 0 0) (ELit (VInt c)) => existsb (Z.eqb c) cs
+  | ECmp _ (ELit (VInt c)) (ECol 0 0) => existsb (Z.eqb c) cs
+  | EBetween _ (ECol 0 0) (ELit (VInt c1)) (ELit (VInt c2)) => existsb (Z.eqb c1) cs && existsb (Z.eqb c2) cs
   | EIsNull _ (ECol 0 0) => true
   | EAnd a b | EOr a b => lit_atoms cs a && lit_atoms cs b
   | ENot a => lit_atoms cs a
